@@ -7,3 +7,4 @@ def run(ctx, rep):
     driver.rule_expert_table(mod, rep, "C13")
     driver.rule_expert_order_refine(mod, rep)
     cond.rule_gsrfs_table(mod, rep)
+    cond.rule_refine_fresh(mod, rep)
